@@ -80,6 +80,8 @@ func c04adderr(err error) int {
 		return 2
 	case strings.Contains(s, "position sort order"):
 		return 3
+	case strings.Contains(s, "without a valid reference ID"):
+		return 4
 	}
 	return 9
 }
